@@ -606,6 +606,16 @@ class ReferenceProperty(Property):
         has_custom = not is_object(obj_type, self.spec_version) \
             or obj_type.startswith("x-")
 
+        if type_ok and auth_type != self.auth_type:
+            # Accepted under the relaxed rule for allow_custom only: if the
+            # property's own rule refuses the type, the reference is custom
+            # content (e.g. a marking-definition among SDO/SCO/SRO refs).
+            if not (
+                is_stix_type(obj_type, self.spec_version, *self.generics)
+                or obj_type in self.specifics
+            ):
+                has_custom = True
+
         if not type_ok:
             types = self.specifics.union(self.generics)
             types = ", ".join(x.name if isinstance(x, STIXTypeClass) else x for x in types)
